@@ -293,7 +293,7 @@ Proof.
     rewrite Forall_forall in IH, Hov. apply (IH (k, ov) Hin).
     + apply wff_get_or_null. exact Htm.
     + apply (Hov (k, ov) Hin).
-    + pose proof (depth_fields_in (k, ov) om Hin) as Hle. cbn in Hle. lia.
+    + pose proof (depth_fields_in (k, ov) om Hin) as Hle. cbn [snd] in *. lia.
 Qed.
 
 (* the relation determines every entry, level by level: two results agree on every path (see get_segs below) *)
